@@ -30,6 +30,10 @@ const c14TypesSrc = `package api
 
 type ID int64
 
+type Flag bool
+
+type Label string
+
 type In struct {
 	A int
 	B string
@@ -54,11 +58,13 @@ type Holder struct {
 	S  string
 	N  int
 	L  []Out
+	Fl Flag
+	La Label
 }
 `
 
 type c14Types struct {
-	in, out, payload, id, float, boolean, str, integer, outs analysis.Type
+	in, out, payload, id, float, boolean, str, integer, outs, flag, label analysis.Type
 }
 
 func loadC14Types() (*c14Types, error) {
@@ -73,7 +79,7 @@ func loadC14Types() (*c14Types, error) {
 	}
 	holder := an.GetByName("Holder").(*analysis.Struct)
 	f := func(i int) analysis.Type { return holder.Fields[i].Type }
-	return &c14Types{in: f(0), out: f(1), payload: f(2), id: f(3), float: f(4), boolean: f(5), str: f(6), integer: f(7), outs: f(8)}, nil
+	return &c14Types{in: f(0), out: f(1), payload: f(2), id: f(3), float: f(4), boolean: f(5), str: f(6), integer: f(7), outs: f(8), flag: f(9), label: f(10)}, nil
 }
 
 type c14Endpoint struct {
@@ -103,7 +109,7 @@ func buildEndpoints(t *c14Types) []c14Endpoint {
 	qAll := []struct {
 		name, kind string
 		ty         analysis.Type
-	}{{"s", "string", t.str}, {"i-1", "int", t.integer}, {"f", "float", t.float}, {"b", "bool", t.boolean}, {"id", "named-int", t.id}}
+	}{{"s", "string", t.str}, {"i-1", "int", t.integer}, {"f", "float", t.float}, {"b", "bool", t.boolean}, {"id", "named-int", t.id}, {"fl", "named-bool", t.flag}, {"la", "named-string", t.label}}
 	idx := 0
 	for _, verb := range []string{"GET", "DELETE", "POST", "PUT"} {
 		inputs := []string{"none"}
@@ -114,7 +120,7 @@ func buildEndpoints(t *c14Types) []c14Endpoint {
 			}
 		}
 		for _, in := range inputs {
-			for qmask := 0; qmask < 32; qmask++ {
+			for qmask := 0; qmask < 128; qmask++ {
 				for _, ret := range []string{"none", "json", "blob"} {
 					ce := c14Endpoint{input: in, ret: ret}
 					ct := httpapi.Contract{Name: fmt.Sprintf("m%d", idx)}
@@ -213,6 +219,16 @@ func queryValue(kind string, variant int) (arg any, want string) {
 			return 7, "7"
 		}
 		return 0, "0"
+	case "named-bool":
+		if variant == 0 {
+			return false, ""
+		}
+		return true, "ok"
+	case "named-string":
+		if variant == 0 {
+			return "x y", "x y"
+		}
+		return "", ""
 	}
 	return nil, ""
 }
@@ -299,7 +315,7 @@ func canon(x any) string {
 
 func runC14(tier string) int {
 	r := evid.NewReport("C14", tier)
-	r.Rule = "all endpoints of F-endpoints (GET/DELETE x query subset x return kind; POST/PUT x {no input, JSON body, the 11 non-empty form combinations} x the 32 subsets of {string, int, float, bool, named int} query parameters x {no return, JSON, blob}) built as httpapi.Endpoint values, plus the endpoint lists extracted from F-routes programs; every generated method is executed under Node 20 with two argument vectors (typical and edge values) against a recording stand-in for axios; non-trivial = the method issued a request"
+	r.Rule = "all endpoints of F-endpoints (GET/DELETE x query subset x return kind; POST/PUT x {no input, JSON body, the 11 non-empty form combinations} x the 128 subsets of {string, int, float, bool, named int, named bool, named string} query parameters x {no return, JSON, blob}) built as httpapi.Endpoint values, plus the endpoint lists extracted from F-routes programs; every generated method is executed under Node 20 with two argument vectors (typical and edge values) against a recording stand-in for axios; non-trivial = the method issued a request"
 	r.Assumptions = []string{
 		"node/ts2js.js strips the TypeScript annotations of the class (it fails loudly on anything outside the template); the type section is checked by tsparse",
 		"JSON / form inputs are only combined with POST and PUT (GET and DELETE carry query parameters only)",
